@@ -103,6 +103,42 @@ def check_crate(fx, rep, crate, cn):
         rep.bad('R20.1', '%s|anchor-poll_next' % cn, '-', 'Stream::poll_next of the notified module not found')
         return res
     pn = pns[0]
+    # ---- R20.10 what poll_next polls lives in the stream (a field of self), not in the call: a future made and polled inside poll_next is dropped when
+    # poll_next returns, and with it the waker registration of a Pending answer (tokio's broadcast `Recv` and async-channel's `Recv` deregister on
+    # drop) - the subscriber that was told "Pending" is never woken by the next set() / notify()
+    WRAP = {'new', 'new_unchecked', 'as_mut', 'get_mut', 'deref_mut', 'deref', 'project', 'as_pin_mut', 'get_unchecked_mut', 'map_unchecked_mut', 'into_ref', 'set', 'borrow_mut'}
+    for body in [pn] + C.nested(crate, pn):
+        if body.mac and 'pin_project' in body.mac:
+            continue
+        ordn = 0
+        for b, t in body.iter_terms('call'):
+            nm = t['callee'].get('name')
+            tr_ = (t['callee'].get('trait') or '') + (t['callee'].get('def') or '')
+            if nm not in ('poll', 'poll_next', 'poll_recv', 'poll_next_unpin', 'poll_unpin') or not t['args'] or t.get('mac') and 'tracing' in (t.get('mac') or ''):
+                continue
+            if not ('Future' in tr_ or 'Stream' in tr_ or 'poll_recv' == nm or 'Unpin' in tr_):
+                continue
+            ordn += 1
+            cur = body.trace(t['args'][0])
+            temp = None
+            for _ in range(10):
+                if cur.get('kind') == 'call':
+                    cn_ = cur['callee'].get('name')
+                    if cn_ in WRAP and cur.get('args'):
+                        cur = body.trace(cur['args'][0])
+                        continue
+                    temp = cur
+                    break
+                if cur.get('kind') in ('aggr',):
+                    temp = cur
+                    break
+                break
+            made_here = temp is not None and temp.get('kind') == 'call'
+            rep.check(not made_here, 'R20.10', '%s|%s|polls-stored-state|%d' % (cn, body.path, ordn), C.where(body, b),
+                      'the future / stream polled here is part of the stream\'s own state',
+                      'poll_next polls a future that it has just made (`%s`) and drops it on return: a Pending answer leaves no waker registered (the future deregisters on drop), so a '
+                      'subscriber that is already waiting is never woken by the next set() / notify() and never converges on the latest value'
+                      % ((temp or {}).get('callee', {}).get('def') or (temp or {}).get('callee', {}).get('name') if made_here else ''))
     sw, names = kind_switch(crate, pn)
     bro = [n for n in names if 'road' in n]
     one = [n for n in names if 'ne' in n and n not in bro]
@@ -362,6 +398,7 @@ def check(fx, rep, tier):
     rep.rule('R20.4', 'State::stream() takes the subscription itself')
     rep.rule('R20.5', 'capacity-1 channel (overflow mode where the channel handles lag); set() stores and broadcasts')
     rep.rule('R20.6', 'the tokio and smol implementations satisfy the same obligations')
+    rep.rule('R20.10', 'what poll_next polls is stored in the stream: no future is created and polled within one poll_next call (its waker registration would die with it)')
     rep.rule('R20.9', 'the broadcast channel shared by all clones of a State is never closed explicitly: a subscription ends only when the state is gone')
     out = {}
     for cn in ('zlink_tokio', 'zlink_smol'):
